@@ -212,6 +212,17 @@ reg(
     "DESIGN.md 5/C19",
 )
 
+reg(
+    "C06",
+    "bounded exhaustive enumeration of schedules: for every subject, seed and input of a small grid all assignments of three global-generator states to the call boundaries of a 2-3 call history are executed on the real code (real rand_argmax / RandomState) and compared, plus twin-object and repeated-call comparisons",
+    "Interleavings of 'other code draws from np.random' with the library calls are modelled by re-seeding numpy's global generator "
+    "to one of three poison states at every call boundary; all 9 assignments (2 calls) are enumerated for every pool strategy "
+    "(incl. default clustering configurations), stream strategy, budget manager, classifier and regressor; results must be identical "
+    "across schedules, across twin objects and across repeated pool calls.",
+    "Three poison states, seeds {0,1,RandomState}, pools of 4 points; consumption of the global generator is recorded as steering evidence only.",
+    "DESIGN.md 5/C06",
+)
+
 
 def main():
     props = [json.loads(l) for l in open(os.path.join(HOME, "properties.jsonl"))]
